@@ -37,19 +37,34 @@ Proof.
     { rewrite Hlam in Ev. unfold term_level_ok in *. repeat (apply andb_prop in Ev; destruct Ev as [Ev ?]).
       cbn. repeat (apply andb_true_intro; split); auto. }
     rewrite Ev'. eexists. split; [reflexivity |]. reflexivity.
-  - destruct s as [f n o lam pen con ba dt b kn vb]. unfold guard_simple in Hg. cbn in Hg.
-    destruct kn; [discriminate |].
+  - (* spline: rebuilt without knots; validation does not look at them *)
+    destruct s as [f n o lam pen con ba dt b kn vb]. unfold guard_simple in Hg. cbn in Hg.
     unfold build_simple, info_simple. cbn -[validate_simple vnum_list vostr_list vnums vostrs oz_of_v v_of_oz].
     rewrite vnum_list_of, !vostr_list_of, oz_of. cbn -[validate_simple].
-    unfold wf_simple in Hwf. rewrite Hwf. eexists. split; reflexivity.
-  - destruct s as [f n o lam pen con ba dt b kn vb]. unfold guard_simple in Hg. cbn in Hg.
-    destruct kn; [discriminate |]. cbn in Hg.
-    repeat (apply andb_prop in Hg; destruct Hg as [Hg ?]).
-    apply Z.eqb_eq in Hg. apply String.eqb_eq in H3, H2. apply Z.eqb_eq in H. subst.
+    unfold wf_simple, validate_simple in Hwf. cbn in Hwf.
+    match type of Hwf with (if ?c then _ else _) = _ => destruct c eqn:Ev; [| discriminate] end.
+    injection Hwf as Hlam. unfold validate_simple. cbn. rewrite Hlam.
+    unfold spline_level_ok in *. cbn in *. rewrite Hlam in Ev. rewrite Ev.
+    eexists. split; [reflexivity |]. cbn. destruct kn as [[[|] k] |]; [discriminate | reflexivity | reflexivity].
+  - (* factor: rebuilt with the constructor's hidden values (n_splines = 20, no knots) *)
+    destruct s as [f n o lam pen con ba dt b kn vb]. unfold guard_simple in Hg. cbn in Hg.
+    apply andb_prop in Hg. destruct Hg as [Hk Hg].
+    apply andb_prop in Hg. destruct Hg as [Hg Hcon]. apply andb_prop in Hg. destruct Hg as [Hg Hby].
+    apply andb_prop in Hg. destruct Hg as [Hg Hdt]. apply andb_prop in Hg. destruct Hg as [Ho Hba].
+    apply Z.eqb_eq in Ho. apply String.eqb_eq in Hba, Hdt. subst.
     destruct b; [discriminate |]. destruct con as [| [c0 |] [| ? ?]]; try discriminate.
     unfold build_simple, info_simple. cbn -[validate_simple vnum_list vostr_list vnums vostrs].
     rewrite vnum_list_of, vostr_list_of. cbn -[validate_simple].
-    unfold wf_simple in Hwf. eexists. split; [exact Hwf | reflexivity].
+    unfold wf_simple, validate_simple in Hwf. cbn in Hwf.
+    match type of Hwf with (if ?c then _ else _) = _ => destruct c eqn:Ev; [| discriminate] end.
+    injection Hwf as Hlam. apply andb_prop in Ev. destruct Ev as [Ev Hc].
+    unfold spline_level_ok in Ev. cbn -[term_level_ok] in Ev. rewrite Hlam in Ev.
+    do 5 (apply andb_prop in Ev; destruct Ev as [Ev ?]).
+    unfold validate_simple. cbn -[term_level_ok]. rewrite Hlam. unfold spline_level_ok. cbn -[term_level_ok].
+    match goal with |- exists _, (if ?c then _ else _) = _ /\ _ => assert (Hcnd : c = true)
+                     by (apply andb_true_intro; split; [| exact Hc];
+                         do 5 (apply andb_true_intro; split; [| reflexivity]); exact Ev) end.
+    eexists. split; [rewrite Hcnd; reflexivity |]. cbn. destruct kn as [[[|] k] |]; [discriminate | reflexivity | reflexivity].
 Qed.
 
 Lemma build_margs_info : forall ms, Forall wf_simple ms -> forallb guard_simple ms = true ->
@@ -88,7 +103,13 @@ Qed.
 Lemma behav_compile_simple : forall dk nc x y, behav_simple x = behav_simple y ->
   behav_simple (compile_simple dk nc x) = behav_simple (compile_simple dk nc y).
 Proof.
-  intros dk nc x y H. destruct x as [l | s | s c], y as [l' | s' | s' c']; simpl in *; try discriminate; inversion H; subst; auto.
+  intros dk nc x y H. destruct x as [l | s | s c], y as [l' | s' | s' c']; simpl in *; try discriminate; auto.
+  - destruct s as [f n o lam pen con ba dt b kn vb], s' as [f' n' o' lam' pen' con' ba' dt' b' kn' vb']. simpl in *.
+    injection H as -> -> -> -> -> -> -> -> -> Hk.
+    destruct kn as [[[|] k] |], kn' as [[[|] k'] |]; simpl in *; try discriminate; try reflexivity.
+    now injection Hk as ->.
+  - destruct s as [f n o lam pen con ba dt b kn vb], s' as [f' n' o' lam' pen' con' ba' dt' b' kn' vb']. simpl in *.
+    injection H as -> -> -> -> -> -> -> -> Hk ->. reflexivity.
 Qed.
 
 Lemma behav_compile : forall dk nc t u, behav t = behav u -> behav (compile dk nc t) = behav (compile dk nc u).
@@ -109,7 +130,7 @@ Qed.
 
 (* ------------------------------------------------------------------ witnesses: the unguarded statement is false *)
 Definition w_spline : sset := mkS 0 6 3 [NF 3 (-2)] [Some "auto"] [None] "ps" "numerical" None None false.
-Definition w_knots : term := TS (SS (mkS 0 6 3 [NF 3 (-2)] [Some "auto"] [None] "ps" "numerical" None (Some [NI (-1); NI 2]) false)).
+Definition w_knots : term := TS (SS (mkS 0 6 3 [NF 3 (-2)] [Some "auto"] [None] "ps" "numerical" None (Some (true, [NI (-1); NI 2])) false)).
 (* a factor term after `termlist.spline_order = 2` (s(0) + f(1)) *)
 Definition w_factor_order : term := TS (SF (mkS 1 20 2 [NF 3 (-2)] [Some "auto"] [None] "ps" "categorical" None None false) "one-hot").
 
